@@ -36,7 +36,9 @@ StoredFields == {"rcpt", "logs", "stat"}
 DiffOn(a, b, fs) == { f \in fs : a[f] # b[f] }
 
 \* the builder's local list accused more validators about the parent round (nev0) than header.SlashData lists (nslash)
-Unlisted(b) == IF b.nev0 > b.nslash THEN {"unlisted_evidence"} ELSE {}
+Unlisted(b) == (IF b.nev0 > b.nslash THEN {"unlisted_evidence"} ELSE {})
+               \* the builder's state object reported a database error (a trie update failed) while the roots were computed
+               \cup (IF b.dberr # "" THEN {b.dberr} ELSE {})
 
 Zero == [Deterministic |-> 0, BuilderAccepted |-> 0, ImportReproduces |-> 0, Aborted |-> 0, PeriodEnds |-> 0, Slashed |-> 0]
 Init == l = 1 /\ haveB = FALSE /\ built = 0 /\ haveR = FALSE /\ first = 0 /\ viol = {} /\ fired = Zero
@@ -58,7 +60,7 @@ Step ==
               /\ haveR' = TRUE /\ first' = IF haveR THEN first ELSE e
               /\ UNCHANGED <<haveB, built>>
               /\ fired' = [fired EXCEPT !.Deterministic = @ + (IF haveR THEN 1 ELSE 0), !.ImportReproduces = @ + 1]
-              /\ viol' = viol \cup (IF det # {} THEN { <<"Deterministic", det \cup {"on_" \o e.on}, l>> } ELSE {})
+              /\ viol' = viol \cup (IF det # {} THEN { <<"Deterministic", det \cup {"on_" \o e.on} \cup Unlisted(built), l>> } ELSE {})
                               \cup (IF rep # {} THEN { <<"ImportReproduces", rep \cup Unlisted(built), l>> } ELSE {})
         [] e.ev = "Imported" /\ haveB ->
               LET acc == e.err = "" /\ e.head
